@@ -113,7 +113,8 @@ Definition writes (o : op) : bool := match o with ODe | OMut => true | _ => fals
 Inductive lkind := KLeaf | KStrLeaf | KDeny.
 Inductive gkind :=
 | GOption | GBox | GCell | GRefCell | GCow | GRc | GArc | GMutex | GRwLock
-| GRcWeak | GArcWeak | GRefMut.
+| GRcWeak | GArcWeak | GRefMut
+| GRefRefCell.      (* &RefCell<T>: TreeDeserialize through try_borrow_mut, TreeSerialize through the & blanket impl *)
 Inductive hkind := HStruct | HTupleStruct | HEnum | HTuple | HResult | HBound | HRange | HRangeIncl | HRangeFrom | HRangeTo.
 Definition is_sum (h : hkind) : bool := match h with HEnum | HResult | HBound => true | _ => false end.
 (* does the impl report the consumed key to the traversal callback? (all of them do) *)
@@ -152,6 +153,7 @@ Definition gate_err (g : gkind) (o : op) (s : gstate) : option gerr :=
   | GRwLock, ORef, _ => Some GAccess
   | GMutex, _, GSblocked => Some GAccess
   | GRwLock, _, GSblocked => Some GAccess
+  | GRefRefCell, (OSer | ODe), GSblocked => Some GAccess
   | (GRcWeak | GArcWeak), _, GSabsent => Some GAbsent
   | (GRcWeak | GArcWeak), ODe, _ => Some GAccess     (* upgrade() then Rc::get_mut on a shared Rc *)
   | _, _, _ => None
